@@ -1,14 +1,16 @@
 """C04 - client-to-server dispatch (DESIGN.md 5/C04)."""
 from . import sockrules as S
+from . import srvrules as R
 
-META = {
-    'level': 'other',
-    'explanation': 'see DESIGN.md 5/C04',
-    'trusted_base': [], 'not_decided': [], 'assumptions': [],
-}
+from .meta import meta
+META = meta('C04', level='other', extra_tb=None)
 
 
 def check(A):
     for fl in S.FLAVOURS:
         S.receive_table(A, fl, 'C04')
         S.post_request(A, fl, 'C04')
+        S.ws_read_loop(A, fl, 'C04')
+        S.ws_receive_errors(A, fl, 'C04')
+        R.response_rules(A, fl, 'C04', parts=('errors',))
+        R.trigger_event_rules(A, fl, 'C04')
